@@ -7,7 +7,7 @@ from .state import State, Exc, Res
 from .engine import FA, zand, zor, STR_LOWER, STR_UPPER, INT_OF_STR_OK, INT_OF_STR
 from .expr import ufun, S
 
-TYPE_NAMES = {'INT': INT, 'BOOL': BOOL, 'REAL': REAL, 'STR': STR, 'VAL': VAL, 'BYTES': BYTES,
+TYPE_NAMES = {'PATH': PATH, 'INT': INT, 'BOOL': BOOL, 'REAL': REAL, 'STR': STR, 'VAL': VAL, 'BYTES': BYTES,
               'SIGEV': SIGEV, 'PUBEV': PUBEV}
 
 
@@ -21,7 +21,8 @@ class SpecMixin(object):
         'pubev', 'ev_w', 'ev_topic', 'ev_pid', 'ev_code', 'at', 'truthy', 'val', 'vnone',
         'prefix_of', 'suffix_of', 'contains', 'index_of', 'str_to_int', 'iff', 'distinct_keys',
         'null', 'isnull', 'in_re', 'last', 'card', 'real', 'tag_eq', 'obj_of', 'same_ghost',
-        'str_of_int', 'length', 'ref_id', 'distinct', 'sig_mode',
+        'str_of_int', 'length', 'ref_id', 'distinct', 'sig_mode', 'path_idx', 'slen', 'path_inv',
+        'is_bytes', 'as_bytes',
     ])
 
     # ------------------------------------------------------------------ entry points
@@ -109,6 +110,8 @@ class SpecMixin(object):
         st2 = st.copy()
         bound = []
         for n, ty in zip(names, sorts):
+            if n in st.env and n not in ('i', 'j', 'k'):
+                self.oos('bound variable %r of a quantifier shadows a name in scope' % n, e)
             v = fresh(ty, 'q_' + n)
             bound.append(v.z)
             st2.env[n] = v
@@ -178,6 +181,13 @@ class SpecMixin(object):
         (a,) = self._args(e, st)
         return SV(BOOL, self.is_none(a))
 
+    def spec_is_bytes(self, e, st):
+        return self._tag(e, st, Val.is_VBytes)
+
+    def spec_as_bytes(self, e, st):
+        (a,) = self._args(e, st)
+        return SV(BYTES, Val.vy(a.z)) if a.ty == VAL else a
+
     def spec_is_bool(self, e, st):
         return self._tag(e, st, Val.is_VBool)
 
@@ -226,6 +236,19 @@ class SpecMixin(object):
     def spec_ref_id(self, e, st):
         (a,) = self._args(e, st)
         return SV(INT, Val.vx(a.z)) if a.ty == VAL else SV(INT, a.z)
+
+    def spec_path_idx(self, e, st):
+        a, i = self._args(e, st)
+        return SV(PATH, self.path_idx(a.z, i.z))
+
+    def spec_path_inv(self, e, st):
+        (a,) = self._args(e, st)
+        self.path_idx(a.z, z3.IntVal(0))
+        return SV(INT, ufun('u_path_idx_inv', PStr, z3.IntSort())(a.z))
+
+    def spec_slen(self, e, st):
+        (a,) = self._args(e, st)
+        return SV(INT, z3.Length(a.z))
 
     def spec_val(self, e, st):
         (a,) = self._args(e, st)
